@@ -472,6 +472,7 @@ def run(cx):
         ob.require(ok, "cap/number-to-dial", f"number_to_dial = {show(n)[:160]}", hc.path)
         gb_ = cx.body("anemo::config::Config::max_concurrent_outstanding_connecting_connections")
         t_ = Origins(gb_).of_local(0)
+        check_pure_accessor(ob, prog, "anemo::config::Config::max_concurrent_outstanding_connecting_connections", "max_concurrent_outstanding_connecting_connections", key="cap")
         ob.require(mentions_field(t_, "max_concurrent_outstanding_connecting_connections") and mentions_param(t_, "self"), "cap/getter",
                    f"max_concurrent_outstanding_connecting_connections() = {show(t_)[:80]}", gb_.path)
         it = ho.of_operand(tk[0].args[0])
